@@ -124,17 +124,17 @@ func c20Handle(db *gorm.DB, c c20Cfg) *gorm.DB {
 func c20GenCfg(rng *rand.Rand) *c20Cfg {
 	c := c20Cfg{}
 	switch rng.Intn(10) {
-	case 0, 1, 2:
+	case 0, 1, 2, 3:
 		c.DisableFK = true
-	case 3:
+	case 4, 5:
 		c.IgnoreRel = true
-	case 4:
+	case 6:
 		c.DisableFK, c.IgnoreRel = true, true
 	}
 	if rng.Intn(3) == 0 {
 		c.Naming = []string{"prefix", "singular", "nolower", "replacer", "short", "mixed"}[rng.Intn(6)]
 	}
-	c.Prepare = rng.Intn(6) == 0
+	// (PrepareStmt is not generated: see c20Excluded)
 	c.SkipTx = rng.Intn(6) == 0
 	if rng.Intn(4) == 0 {
 		c.Handle = []string{"session", "ctx", "newdb", "chain"}[rng.Intn(4)]
